@@ -27,8 +27,27 @@ def run_check(pid, tier, copy, seed=1):
     p = subprocess.run([sys.executable, "-m", "qv", "check", pid, "--tier", tier], cwd=VERIF, env=env,
                        capture_output=True, text=True, timeout=7200)
     first = next((l for l in p.stdout.splitlines() if l.startswith("  clause=")), "")[:300]
+    rp = next((l.split("replay=", 1)[1].strip() for l in p.stdout.splitlines() if l.startswith("VIOLATION ") and "replay=" in l), "")
     return {"exit": p.returncode, "wall_s": round(time.time() - t0, 1), "first": first,
-            "stderr": p.stderr[-400:] if p.returncode == 2 else ""}
+            "stderr": p.stderr[-400:] if p.returncode == 2 else "", "_replay": rp}
+
+
+def harvest(sid, pid, rec):
+    """Copy the input that exposed a seeded change into the corpus tier (replays/corpus/<property>-<clause>-<id>.json)
+    unless it is large; the corpus is replayed by every later check run (qv/runner.py)."""
+    rp = rec.get("_replay") or ""
+    if rec.get("exit") != 1 or not rp or not os.path.exists(rp) or os.path.getsize(rp) > 150_000:
+        return None
+    try:
+        clause = json.load(open(rp))["clause"]
+    except Exception:  # noqa: BLE001
+        return None
+    if "-" in clause:
+        return None
+    dst = os.path.join(VERIF, "replays", "corpus", f"{pid}-{clause}-{sid}.json")
+    os.makedirs(os.path.dirname(dst), exist_ok=True)
+    shutil.copyfile(rp, dst)
+    return os.path.relpath(dst, VERIF)
 
 
 def run_demo(demo, tree):
@@ -43,9 +62,13 @@ def main(argv=None):
     ap.add_argument("--no-thorough", action="store_true")
     ap.add_argument("--extra", default="", help="comma separated extra property ids to run against every change")
     ap.add_argument("--pending", action="store_true", help="only changes that have no entry in RESULTS.json yet")
+    ap.add_argument("--harvest", action="store_true", help="run with the corpus switched off and copy the exposing input "
+                    "of every caught change into replays/corpus/")
     ap.add_argument("--tests", action="store_true", help="also run the repository's test suite (minus the two ~20 min "
                     "Q-GMRES scale tests) on the patched copy")
     a = ap.parse_args(argv)
+    if a.harvest:
+        os.environ["QV_NO_CORPUS"] = "1"          # the table measures the generators alone
     respath = os.path.join(VERIF, "seeded", "RESULTS.json")
     results = {}
     if os.path.exists(respath):
@@ -91,8 +114,12 @@ def main(argv=None):
                 for q in pids:
                     key = "quick" if q == pid else f"quick[{q}]"
                     rec[key] = run_check(q, "quick", patched)
+                    if q == pid and a.harvest:
+                        rec["corpus_file"] = harvest(sid, pid, rec[key])
+                    rec[key].pop("_replay", None)
                     if q == pid and rec[key]["exit"] == 0 and not a.no_thorough:
                         rec["thorough"] = run_check(q, "thorough", patched)
+                        rec["thorough"].pop("_replay", None)
                 rec["caught_by"] = ("quick" if rec["quick"]["exit"] == 1 else
                                     ("thorough" if rec.get("thorough", {}).get("exit") == 1 else
                                      ("HARNESS-ERROR(exit 2)" if 2 in (rec["quick"]["exit"], rec.get("thorough", {}).get("exit"))
